@@ -20,6 +20,7 @@ class Decider:
                       'cvc5': {'sat': 0, 'unsat': 0, 'unknown': 0, 'error': 0, 'time_s': 0.0},
                       'disagreements': 0}
         self.nq = 0
+        self.cross_cap_s = 30
         self.logic = None        # e.g. 'QF_FPBV' for pure bit-vector / floating-point queries (eager bit-blasting)
 
     def check(self, conds, lemmas=(), want_model=True, label=''):
@@ -67,8 +68,9 @@ class Decider:
         t0 = time.time()
         st = self.stats['cvc5']
         try:
-            r = subprocess.run(['cvc5', '--lang', 'smt2', f'--tlimit={int(self.timeout_s * 1000)}', path],
-                               stdout=subprocess.PIPE, stderr=subprocess.STDOUT, text=True, timeout=self.timeout_s + 10)
+            cap = min(self.timeout_s, self.cross_cap_s)      # the second opinion gets a short cap: its time-outs count as 'unknown', never as disagreement
+            r = subprocess.run(['cvc5', '--lang', 'smt2', f'--tlimit={int(cap * 1000)}', path],
+                               stdout=subprocess.PIPE, stderr=subprocess.STDOUT, text=True, timeout=cap + 10)
             out = r.stdout
         except subprocess.TimeoutExpired:
             out = 'timeout'
